@@ -335,6 +335,30 @@ def static_value(fa: FA, e, at, depth=0):
     return e
 
 
+def class_units(ck, fa: FA, limit=12):
+    """A function together with the pieces it was split into: the function itself, its nested functions and every
+    function of its class / module it refers to (called on the spot, or picked first — `walker = self._walk_flat` — and
+    called later), transitively.  -> [FuncInfo]"""
+    cls = fa.fi.cls
+    out, todo = [], [fa.fi]
+    while todo and len(out) < limit:
+        fi = todo.pop(0)
+        if any(fi is x for x in out):
+            continue
+        out.append(fi)
+        todo += list(fi.nested.values())
+        for n in A.walk_body(fi.node):
+            tgt = None
+            if isinstance(n, ast.Attribute) and isinstance(n.value, ast.Name) and isinstance(n.ctx, ast.Load) and cls is not None \
+                    and n.value.id in ("self", "cls", cls.node.name) and n.attr in cls.methods:
+                tgt = cls.methods[n.attr]
+            elif isinstance(n, ast.Name) and isinstance(n.ctx, ast.Load) and n.id in fi.module.functions:
+                tgt = fi.module.functions[n.id]
+            if tgt is not None and not any(tgt is x for x in out) and not any(tgt is x for x in todo):
+                todo.append(tgt)
+    return out
+
+
 def _simplify(conds):
     cs = set(conds)
     changed = True
